@@ -680,4 +680,183 @@ example :
     (run cfg (ops ++ [.getHealthy none])).log.getLast? = some .notAllowed := by
   decide
 
+/-! ## several wrappers: a wrapper is a wrapper
+
+The seeded change C18-w6m1 moves the round-robin cursor into `HealthCheckConfig`, whose derived `Clone` shares it:
+wrappers built with `with_config(cfg.clone())` from one config value then advance ONE cursor. The model of a case with
+`wrappers=<k>` is the family of `k` single-wrapper models (`stepFam`, `runFam`): each has a cursor of its own. -/
+
+theorem foldl_keeps {α β γ : Type} (g : β → γ) (f : β → α → β) (h : ∀ b a, g (f b a) = g b) (l : List α) (b : β) :
+    g (l.foldl f b) = g b := by
+  induction l generalizing b with
+  | nil => rfl
+  | cons a tl ih => rw [List.foldl_cons, ih, h]
+
+theorem finish_ctr (cfg : Cfg) (s : State) (p : Pending) (o : Outcome) : (finish cfg s p o).ctr = s.ctr := rfl
+
+theorem finishOne_ctr (cfg : Cfg) (now : Nat) (s : State) (p : Pending) : (finishOne cfg now s p).ctr = s.ctr := by
+  unfold finishOne; split <;> rfl
+
+theorem finishDue_ctr (cfg : Cfg) (order : List Nat) (s : State) : (finishDue cfg order s).ctr = s.ctr := by
+  unfold finishDue
+  rw [foldl_keeps State.ctr _ (fun b a => finishOne_ctr cfg s.now b a)]
+
+theorem startOne_ctr (cfg : Cfg) (s : State) (r : Nat) : (startOne cfg s r).ctr = s.ctr := by
+  unfold startOne
+  split
+  · rfl
+  · dsimp only; split <;> rfl
+
+theorem startRound_ctr (cfg : Cfg) (s : State) : (startRound cfg s).ctr = s.ctr := by
+  unfold startRound
+  rw [foldl_keeps State.ctr _ (fun b a => startOne_ctr cfg b a)]
+
+theorem quiesce_ctr (cfg : Cfg) (fuel : Nat) (s : State) : (quiesce cfg fuel s).ctr = s.ctr := by
+  induction fuel generalizing s with
+  | zero => rfl
+  | succ n ih =>
+    unfold quiesce
+    split
+    · rfl
+    · rfl
+    · rw [ih]
+    · split
+      · split
+        · rfl
+        · rw [ih]
+      · rfl
+    · split
+      · rw [ih, startRound_ctr]
+      · rfl
+    · split
+      · rfl
+      · rw [ih]
+
+/-- The round-robin cursor of a wrapper is moved by its own selections only: time passing, checks completing, rounds
+starting, `start()` / `stop()` and every other operation leave it where it is. -/
+theorem cursor_moves_only_by_own_selection (cfg : Cfg) (s : State) (op : Op)
+    (h : ∀ pick, op ≠ .getHealthy pick ∧ op ≠ .getUsable pick) : (stepS cfg s op).ctr = s.ctr := by
+  unfold stepS
+  rw [quiesce_ctr, finishDue_ctr]
+  cases op with
+  | getHealthy pick => exact absurd rfl (h pick).1
+  | getUsable pick => exact absurd rfl (h pick).2
+  | script r items => simp only [doOp]; split <;> rfl
+  | _ => rfl
+
+theorem stepFam_get (cfg : Cfg) (f : Nat → Op) (i : Nat) (ss : List State) (j : Nat) :
+    (stepFam cfg f i ss)[j]? = (ss[j]?).map (fun s => stepS cfg s (f (i + j))) := by
+  induction ss generalizing i j with
+  | nil => simp [stepFam]
+  | cons s tl ih =>
+    cases j with
+    | zero => simp [stepFam]
+    | succ j => simp [stepFam, ih, Nat.add_assoc, Nat.add_comm 1 j]
+
+/-- **Independence.** One step of a family of wrappers: the new state of wrapper `j` is the single-wrapper step of its
+own old state under its own operation — nothing of any other wrapper (state, operation, observed result) enters. -/
+theorem wrappers_independent (cfg : Cfg) (f : Nat → Op) (ss : List State) (j : Nat) :
+    (stepFam cfg f 0 ss)[j]? = (ss[j]?).map (fun s => stepS cfg s (f j)) := by
+  simpa using stepFam_get cfg f 0 ss j
+
+/-- … so two steps that are the same for wrapper `j` leave it in the same state, whatever they are for the others. -/
+theorem other_wrappers_do_not_matter (cfg : Cfg) (f g : Nat → Op) (ss : List State) (j : Nat) (h : f j = g j) :
+    (stepFam cfg f 0 ss)[j]? = (stepFam cfg g 0 ss)[j]? := by
+  rw [wrappers_independent, wrappers_independent, h]
+
+/-- **A selection on one wrapper does not move another wrapper's cursor.** Whatever the step is for the other wrappers
+— `get_healthy` / `get_usable` with any result — a wrapper for which it is not a selection keeps its cursor. (Under the
+seeded change C18-w6m1 the wrappers built from clones of one config value have ONE cursor.) -/
+theorem selection_elsewhere_keeps_cursor (cfg : Cfg) (f : Nat → Op) (ss : List State) (j : Nat) (s s' : State)
+    (hs : ss[j]? = some s) (hs' : (stepFam cfg f 0 ss)[j]? = some s')
+    (h : ∀ pick, f j ≠ .getHealthy pick ∧ f j ≠ .getUsable pick) : s'.ctr = s.ctr := by
+  rw [wrappers_independent, hs] at hs'
+  cases hs'
+  exact cursor_moves_only_by_own_selection cfg s (f j) h
+
+/-- An operation line that is for wrapper `i` is `idle` for every other wrapper `j`: time for its own tasks, nothing else —
+neither the line's words (which selection, which resource) nor its observed result reach wrapper `j`. -/
+theorem line_for_another_wrapper_is_idle (k i j : Nat) (what : String) (rest : List String) (hw : what = "manual" ∨ what = "probe")
+    (hi : targetOf (what :: rest) = i) (hk : i < k) (hij : j ≠ i) : opFor k j (what :: rest) = .idle := by
+  have hadv : what ≠ "adv" := by rcases hw with rfl | rfl <;> decide
+  have : opFor k j (what :: rest) =
+      if targetOf (what :: rest) < k then (if j = targetOf (what :: rest) then parseOp (what :: rest) else .idle)
+      else if j = 0 then .bad else .idle := by
+    unfold opFor
+    split
+    · rename_i heq; injection heq with h1 _; exact absurd h1 hadv
+    · rfl
+  rw [this, hi]
+  simp [hk, hij]
+
+theorem foldFam_get (cfg : Cfg) (fs : List (Nat → Op)) (ss : List State) (j : Nat) (s : State) (hs : ss[j]? = some s) :
+    (fs.foldl (fun ss f => stepFam cfg f 0 ss) ss)[j]? = some ((fs.map (· j)).foldl (stepS cfg) s) := by
+  induction fs generalizing ss s with
+  | nil => simpa using hs
+  | cons f tl ih =>
+    simp only [List.foldl_cons, List.map_cons]
+    exact ih _ _ (by rw [wrappers_independent, hs]; rfl)
+
+/-- **Every wrapper of a family is a single wrapper.** After any sequence of steps, the state of wrapper `j` is the
+single-wrapper run over its own operations (`fs.map (· j)`: the foreign ones are `idle` for it). Every theorem of this
+file about `run cfg ops` therefore holds for each wrapper of a case over the wrapper's own lines. -/
+theorem wrapper_is_single_run (cfg : Cfg) (k : Nat) (fs : List (Nat → Op)) (j : Nat) (hj : j < k) :
+    (runFam cfg k fs)[j]? = some (run cfg (fs.map (· j))) := by
+  unfold runFam run
+  exact foldFam_get cfg fs _ j _ (by simp [hj])
+
+/-- `reachable_is_fold`, per wrapper: statuses and counters of a wrapper are the fold of its own completed checks. -/
+theorem per_wrapper_reachable_is_fold (cfg : Cfg) (k : Nat) (fs : List (Nat → Op)) (j : Nat) (s : State)
+    (hs : (runFam cfg k fs)[j]? = some s) :
+    s.slots.length = cfg.n ∧ ∀ sl ∈ s.slots, sl.core = runRes cfg.sth cfg.fth sl.hist := by
+  have hj : j < k := by
+    have := (List.getElem?_eq_some_iff.1 hs).1
+    have hl : (runFam cfg k fs).length = k := by
+      unfold runFam
+      have : ∀ (fs : List (Nat → Op)) (ss : List State), (fs.foldl (fun ss f => stepFam cfg f 0 ss) ss).length = ss.length := by
+        intro fs
+        induction fs with
+        | nil => intro ss; rfl
+        | cons f tl ih =>
+          intro ss
+          rw [List.foldl_cons, ih]
+          have : ∀ (i : Nat) (ss : List State), (stepFam cfg f i ss).length = ss.length := by
+            intro i ss
+            induction ss generalizing i with
+            | nil => rfl
+            | cons a tl ih2 => simp [stepFam, ih2]
+          exact this 0 ss
+      rw [this]; simp
+    omega
+  rw [wrapper_is_single_run cfg k fs j hj] at hs
+  cases hs
+  exact reachable_is_fold cfg _
+
+/-- **Round-robin per wrapper** (`rr_selection_line_is_the_rotation` transferred): every round-robin selection line of
+wrapper `j`'s log returns entry `c mod n` of the resources eligible by wrapper `j`'s check lines before it, `c` = the
+number of earlier selection lines **of wrapper `j`** that returned a resource — however many selections the other
+wrappers of the case made in between, and whether or not they were built from the same `HealthCheckConfig` value. With
+a fixed eligible set of size `n`, any `n` consecutive selections of one wrapper visit each eligible resource once
+(`round_robin_even`, `round_robin_fair_across_changes`). -/
+theorem round_robin_per_wrapper (cfg : Cfg) (hrr : cfg.strat = .rr) (k : Nat) (fs : List (Nat → Op)) (j : Nat) (hj : j < k)
+    (s : State) (hs : (runFam cfg k fs)[j]? = some s) (pre post : List HEv) (b : Bool) (res : Option Nat)
+    (h : s.log = pre ++ .got b res :: post) :
+    res = (eligible (filt b) (stAt cfg pre))[gotCount pre % (eligible (filt b) (stAt cfg pre)).length]? := by
+  rw [wrapper_is_single_run cfg k fs j hj] at hs
+  cases hs
+  exact rr_selection_line_is_the_rotation cfg hrr _ pre post b res h
+
+/-- two wrappers of one configuration (round-robin, two resources each, all healthy), selections alternating between
+them: each wrapper hands out `0, 1, 0` — not `0, 0, 0` (wrapper 0) and `1, 1, 1` (wrapper 1) as with one cursor for both -/
+example :
+    let cfg : Cfg := { n := 2, sth := 1, fth := 2, interval := 10, timeout := 5, delay := 0, strat := .rr, dflt := ⟨.h, 0⟩ }
+    let on (i : Nat) (op : Op) : Nat → Op := fun j => if j = i then op else .idle
+    let fs : List (Nat → Op) := [fun _ => .adv 0 [], on 0 (.getHealthy none), on 1 (.getHealthy none), on 0 (.getHealthy none),
+                                 on 1 (.getUsable none), on 0 (.getHealthy none), on 1 (.getHealthy none)]
+    (runFam cfg 2 fs).map (fun s => s.log.filter (fun e => match e with | .got _ _ => true | _ => false)) =
+      [[.got true (some 0), .got true (some 1), .got true (some 0)],
+       [.got true (some 0), .got false (some 1), .got true (some 0)]] ∧
+    (runFam cfg 2 fs).map (·.ctr) = [3, 3] := by
+  decide
+
 end TR.Props.C18
